@@ -41,7 +41,7 @@ ASSUMPTIONS = [
     "nothing is asserted about the bytes a failed or crashed save leaves behind",
 ]
 COMPONENTS = {"real": ["partitura.io.exportmatch", "partitura.io.importmatch", "partitura.io.matchfile_base / matchlines_v0 / matchlines_v1 / matchfile_utils", "musicanalysis.performance_codec (time maps, matched notes)", "score.add_measures/tie_notes/find_tuplets"], "stub": ["raw file layer (SimFS)", "line-level channel disturbances applied by the harness between writer and reader"]}
-PROBES = ("durations_as_sums", "second_generation", "controls_from_midi_file", "second_generation_after_edit", "auto_unfold", "line_duplicated", "blank_lines", "conflicting_deletion", "conflicting_insertion", "ornament_entry", "deletion_entry", "insertion_entry", "pickup", "timesig_change", "ties", "grace", "pedal_lines", "fault_in_flight", "fixture_v0", "fixture_v1", "reader_on_torn_file")
+PROBES = ("durations_as_sums", "beat_unit_dialect", "second_generation", "controls_from_midi_file", "second_generation_after_edit", "auto_unfold", "line_duplicated", "blank_lines", "conflicting_deletion", "conflicting_insertion", "ornament_entry", "deletion_entry", "insertion_entry", "pickup", "timesig_change", "ties", "grace", "pedal_lines", "fault_in_flight", "fixture_v0", "fixture_v1", "reader_on_torn_file")
 
 FIXTURE_DIRS = ("/repo/tests/data/match",)
 
@@ -200,7 +200,7 @@ def generate(seed, tier, cfg):
         if x < 0.2:
             ops.append({"k": "save"})
         elif x < 0.5:
-            ops.append({"k": "disturb", "dup": [o.randrange(0, 10**6) for _ in range(o.choice((1, 2, 4)))], "blank": [o.randrange(0, 10**6) for _ in range(o.choice((0, 1, 2)))], "conflict": o.choice((None, None, "deletion", "insertion")), "sums": o.random() < 0.4})
+            ops.append({"k": "disturb", "dup": [o.randrange(0, 10**6) for _ in range(o.choice((1, 2, 4)))], "blank": [o.randrange(0, 10**6) for _ in range(o.choice((0, 1, 2)))], "conflict": o.choice((None, None, "deletion", "insertion")), "sums": o.random() < 0.4, "beat_dialect": o.random() < 0.25})
         else:
             ops.append({"k": "load"})
     ops.append({"k": "load"})
@@ -373,6 +373,33 @@ def disturb(text, spec, res, align):
         for i, l in enumerate(lines):
             if l.startswith("snote("):
                 lines[i] = _re.sub(r"^(snote\([^,]+,\[[^\]]*\],-?\d+,[^,]+,[^,]+,)([0-9]+)/([0-9]+)(,)", as_sum, l)
+    if spec.get("beat_dialect"):
+        # the other dialect of the format (older data sets): Offset and Duration count beats of the bar's time signature
+        # instead of whole notes.  Loaded with offset_duration_whole=False the file says the same as before
+        import re as _re
+
+        tss = sorted((int(m_.group(2)), int(m_.group(1))) for m_ in _re.finditer(r"scoreprop\(timeSignature,[0-9]+/([0-9]+),(-?[0-9]+):", "\n".join(lines)))
+
+        def in_beats(txt_, bt):
+            out_ = []
+            for term in txt_.split("+"):
+                a, _, b = term.partition("/")
+                v = F(int(a), int(b or 1)) * bt
+                out_.append("%d" % v.numerator if v.denominator == 1 else "%d/%d" % (v.numerator, v.denominator))
+            return "+".join(out_)
+
+        if tss:
+            for i, l in enumerate(lines):
+                m_ = _re.match(r"^(snote\([^,]+,\[[^\]]*\],-?[0-9]+,)(-?[0-9]+)(:[0-9]+,)([0-9/+]+),([0-9/+]+)(,.*)$", l)
+                if not m_:
+                    continue
+                bar = int(m_.group(2))
+                bt = tss[0][1]
+                for b_, t_ in tss:
+                    if b_ <= bar:
+                        bt = t_
+                lines[i] = m_.group(1) + m_.group(2) + m_.group(3) + in_beats(m_.group(4), bt) + "," + in_beats(m_.group(5), bt) + m_.group(6)
+            res.probe("beat_unit_dialect")
     c = spec.get("conflict")
     if c == "deletion":
         # a deletion line for a score note that also has a match: take the snote of a match line
@@ -546,6 +573,7 @@ def execute(case, keep_log=False):
     path = "/simfs/a.match"
     content = {}
     disturbed = None
+    dialect_whole = True
     last_loaded = None
     fault_by_op = {}
     for f in case["faults"]:
@@ -572,6 +600,7 @@ def execute(case, keep_log=False):
                 if outcome == "ack":
                     content[path] = "ref"
                     disturbed = None
+                    dialect_whole = True
                     if fs.get(path) != ref_bytes:
                         res.violation("R4-routes", "save", "acknowledged save stored text that differs from the fault-free reference", site="path")
                         content[path] = "unknown"
@@ -587,6 +616,8 @@ def execute(case, keep_log=False):
                             if fs.get(path) != ref_bytes:
                                 res.violation("D1-retry", "save", "fault-free retry after %s wrote different text than a fault-free world" % outcome, site=outcome.split(":")[0])
                             content[path] = "ref"
+                            disturbed = None
+                            dialect_whole = True
                         except Exception as e:
                             res.violation("D1-retry", "save", "fault-free retry after %s raised %s: %s" % (outcome, type(e).__name__, e), site=outcome.split(":")[0])
             elif op["k"] == "regen":
@@ -645,15 +676,21 @@ def execute(case, keep_log=False):
             elif op["k"] == "disturb":
                 if content.get(path) == "ref":
                     txt = fs.get(path).decode("utf-8")
-                    fs.put(path, disturb(txt, op, res, alignment).encode("utf-8"))
+                    # (a file that is already in the beat dialect is not converted a second time)
+                    fs.put(path, disturb(txt, op if dialect_whole else dict(op, beat_dialect=False), res, alignment).encode("utf-8"))
                     disturbed = op.get("conflict") or "dup"
+                    if op.get("beat_dialect"):
+                        dialect_whole = False
                     nontrivial = True
                     res.fault("F8")
                     outcome = disturbed
             else:
                 state = content.get(path)
                 try:
-                    perf, al, sc = with_timeout(20, load_match, path, create_score=True)
+                    if state == "ref" and not dialect_whole:
+                        perf, al, sc = with_timeout(20, load_match, path, create_score=True, offset_duration_whole=False)
+                    else:
+                        perf, al, sc = with_timeout(20, load_match, path, create_score=True)
                     outcome = "loaded"
                 except Timeout:
                     outcome = "timeout"
